@@ -102,9 +102,9 @@ impl InstState {
 }
 
 pub fn host_name(h: usize) -> Name {
-    // every other host has upper-case letters in its name
+    // every other host has upper-case letters in its name, one of them outside ASCII
     if h % NHOSTS % 2 == 1 {
-        Name::from_escaped(&format!("BHost{}.Local.", h % NHOSTS))
+        Name::from_escaped(&format!("BH\u{dc}st{}.Local.", h % NHOSTS))
     } else {
         Name::from_escaped(&format!("bhost{}.local.", h % NHOSTS))
     }
